@@ -9,6 +9,7 @@ import PyaModel.Generated.FixConsts
 3. Inserting one line: indexing, file-level scan, suppression.
 4. The add-ignores round in closed form, its invariants, termination.
 5. `get_line_range_for_node`.
+6. The line lexer.
 -/
 set_option linter.unusedSimpArgs false
 set_option linter.unusedVariables false
@@ -1114,5 +1115,90 @@ theorem applyChange_range (lines : List Line) (first stmtEnd : Nat) (adds : List
     simp only [List.length_drop, List.length_take] at hj2
     omega)]
   simp
+/-! ## 6. The line lexer: comment-only lines are invisible at a safe start -/
+
+theorem scan_comment (d : Nat) : ∀ (l : Line), scan (.comment d) l = .comment d := by
+  intro l
+  induction l with
+  | nil => rfl
+  | cons c cs ih => simp only [scan, step]; exact ih
+
+theorem space_ne (c x : Char) (hx : isSpace x = false) (h : isSpace c = true) : (c == x) = false := by
+  cases hh : c == x with
+  | false => rfl
+  | true => rw [beq_iff_eq.mp hh, hx] at h; cases h
+
+theorem step_space (d : Nat) (c : Char) (cs : Line) (h : isSpace c = true) : step (.code d) c cs = .code d := by
+  have h1 := space_ne c '#' (by decide) h
+  have h2 := space_ne c '\\' (by decide) h
+  have h3 := space_ne c '\'' (by decide) h
+  have h4 := space_ne c '"' (by decide) h
+  have h5 := space_ne c '(' (by decide) h
+  have h6 := space_ne c '[' (by decide) h
+  have h7 := space_ne c '{' (by decide) h
+  have h8 := space_ne c ')' (by decide) h
+  have h9 := space_ne c ']' (by decide) h
+  have h10 := space_ne c '}' (by decide) h
+  simp [step, isQuote, h1, h2, h3, h4, h5, h6, h7, h8, h9, h10]
+
+theorem scan_commentLine (d : Nat) : ∀ (l : Line), isCommentLine l = true → scan (.code d) l = .comment d := by
+  intro l
+  induction l with
+  | nil => intro h; simp [isCommentLine, lstrip] at h
+  | cons c cs ih =>
+    intro h
+    unfold isCommentLine lstrip at h
+    by_cases hs : isSpace c = true
+    · simp only [List.dropWhile_cons, hs, if_true] at h
+      simp only [scan, step_space d c cs hs]
+      exact ih h
+    · simp only [List.dropWhile_cons, hs, Bool.false_eq_true, if_false, List.head?_cons, beq_iff_eq,
+        Option.some.injEq] at h
+      subst h
+      simp only [scan]
+      have : step (.code d) '#' cs = .comment d := by simp [step]
+      rw [this]
+      exact scan_comment d cs
+
+theorem scanLine_commentLine (st : Lex) (l : Line) (hs : st.safeStart = true) (hl : isCommentLine l = true) :
+    scanLine st l = st := by
+  cases st with
+  | code d => simp [scanLine, Lex.enter, scan_commentLine d l hl, Mode.atEol]
+  | cont d => simp [Lex.safeStart] at hs
+  | single q d => simp [Lex.safeStart] at hs
+  | triple q d => simp [Lex.safeStart] at hs
+
+theorem lexTrace_append : ∀ (a b : List Line) (st : Lex),
+    lexTrace st (a ++ b) = lexTrace st a ++ lexTrace (a.foldl scanLine st) b := by
+  intro a
+  induction a with
+  | nil => intros; rfl
+  | cons x xs ih =>
+    intro b st
+    simp only [List.cons_append, lexTrace, List.foldl_cons, ih]
+    split <;> simp
+
+/-- Inserting a comment-only line where a physical line starts between tokens leaves the trace alone. -/
+theorem lexTrace_insert (lines : List Line) (p : Nat) (c : Line) (hc : isCommentLine c = true)
+    (hs : (lexStateAt lines p).safeStart = true) :
+    lexTrace (.code 0) (insertAt lines (p - 1) c) = lexTrace (.code 0) lines := by
+  unfold insertAt
+  unfold lexStateAt at hs
+  conv => rhs; rw [← List.take_append_drop (p - 1) lines]
+  rw [lexTrace_append, lexTrace_append]
+  congr 1
+  simp only [lexTrace, hs, hc, Bool.and_self, if_true]
+  rw [scanLine_commentLine _ c hs hc]
+
+theorem safeStart_of_not_D {lines : List Line} {p : Nat} (h1 : insideStringAt lines p = false)
+    (h2 : afterBackslashAt lines p = false) : (lexStateAt lines p).safeStart = true := by
+  unfold insideStringAt at h1
+  unfold afterBackslashAt at h2
+  cases h : lexStateAt lines p with
+  | code d => rfl
+  | cont d => rw [h] at h2; simp at h2
+  | single q d => rw [h] at h1; simp at h1
+  | triple q d => rw [h] at h1; simp at h1
+
 
 end Pya.C16
